@@ -22,6 +22,9 @@ func runC03(w *World) {
 	nmsg := w.Range(1, 12, "nmsg")
 	if w.Chance(1, 6, "many") {
 		nmsg = w.Range(13, 60, "nmsgmany")
+		if w.Tier == "thorough" {
+			nmsg = w.Range(13, 200, "nmsgmore")
+		}
 	}
 	notifAt := -1
 	var wantNotif *corebgp.Notification
